@@ -780,3 +780,251 @@ Proof.
   unfold merge_engine. intro H. apply merge_prog_update_args in H as [-> ->].
   unfold the_dels, the_outs, outs_from. rewrite plan_groups_srcs, plan_groups_length. auto.
 Qed.
+
+(* ------------------------------------------------------------------ *)
+(* FileSystemDataStore as MetaStore: what does hold.  When the writer has Abort and every
+   TombstoneFile of an output succeeds (in particular under any single fault that is not such
+   a tombstone), the state after Merge returns is all-or-nothing as well. *)
+
+Section FsFinal.
+  Variable outf : Z -> file.
+  Hypothesis outf_ptr : forall p, f_ptr (outf p) = p.
+
+  Notation fsv := (vis_after MSFs outf).
+
+  Definition ptrs (v : list file) : list Z := map f_ptr v.
+
+  Lemma remove_ptrs_notin ps v : (forall p, In p ps -> ~ In p (ptrs v)) -> remove_ptrs ps v = v.
+  Proof.
+    intro H. unfold remove_ptrs. apply filter_all_true. intros f Hf. apply negb_true_iff. apply mem_z_false.
+    intro Hin. apply (H _ Hin). apply in_map. exact Hf.
+  Qed.
+
+  Lemma fs_body v b : forallb is_body_ev b = true -> fsv v b = v.
+  Proof.
+    unfold vis_after. revert v. induction b as [|e b IH]; intros v; simpl; [reflexivity|].
+    intro H. apply andb_true_iff in H as [H1 H2]. rewrite <- (IH v H2) at 2. f_equal.
+    unfold vis_step, is_body_ev in *. destruct (e_ok e); simpl; [|reflexivity]. destruct (e_call e); try discriminate; reflexivity.
+  Qed.
+
+  Lemma set_file_fresh o v : ~ In o (ptrs v) -> set_file (outf o) v = v ++ [outf o].
+  Proof.
+    intro H. unfold set_file. rewrite outf_ptr. destruct (mem_z o (map f_ptr v)) eqn:M; [|reflexivity].
+    apply mem_z_In in M. contradiction.
+  Qed.
+
+  (* a tombstone of something that is not visible, or a failed one, changes nothing *)
+  Lemma fs_tomb_noop v p ok : (ok = false \/ ~ In p (ptrs v)) -> fsv v [Ev (KTomb p) ok] = v.
+  Proof.
+    intros [->|H]; unfold vis_after; simpl; [reflexivity|]. unfold vis_step. destruct ok; simpl; [|reflexivity].
+    apply remove_ptrs_notin. intros q [<-|[]]. exact H.
+  Qed.
+
+  Lemma fs_abort_writer fo n ca out tra n2 v :
+    abort_writer fo n true ca out = (tra, n2) -> ~ In out (ptrs v) -> fsv v tra = v.
+  Proof.
+    unfold abort_writer. intros H Hn. inversion H; subst. clear H.
+    change [Ev (KAbort out) (negb (fo n)); Ev (KTomb out) (negb (fo (S n)))]
+      with ([Ev (KAbort out) (negb (fo n))] ++ [Ev (KTomb out) (negb (fo (S n)))]).
+    rewrite vis_after_app.
+    assert (E : fsv v [Ev (KAbort out) (negb (fo n))] = v).
+    { unfold vis_after. simpl. unfold vis_step. destruct (negb (fo n)); reflexivity. }
+    rewrite E. apply fs_tomb_noop. right. exact Hn.
+  Qed.
+
+  Lemma fs_group_ok v out b :
+    forallb is_body_ev b = true -> ~ In out (ptrs v) ->
+    fsv v (Ev (KCreate out) true :: b ++ [Ev (KClose out) true]) = v ++ [outf out].
+  Proof.
+    intros Hb Hn. change (Ev (KCreate out) true :: b ++ [Ev (KClose out) true])
+      with ([Ev (KCreate out) true] ++ b ++ [Ev (KClose out) true]).
+    rewrite !vis_after_app.
+    assert (E : fsv v [Ev (KCreate out) true] = v) by reflexivity.
+    rewrite E, (fs_body v b Hb). unfold vis_after. simpl. unfold vis_step. simpl. apply set_file_fresh. exact Hn.
+  Qed.
+
+  Lemma fs_group_fail fo n out body tr n' v :
+    exec_group fo n true out body = (tr, false, n') -> ~ In out (ptrs v) -> fsv v tr = v.
+  Proof.
+    unfold exec_group. destruct (fo n).
+    { intro H; inversion H; subst. intros _. reflexivity. }
+    destruct (run_body fo (S n) out body) as [[b ok] n1] eqn:R.
+    pose proof (run_body_spec _ _ _ _ _ _ _ R) as Hb.
+    destruct ok; cbn [negb].
+    - destruct (fo n1); [|intro H; inversion H].
+      destruct (abort_writer fo (S n1) true true out) as [tra n2] eqn:A. intro H; inversion H; subst. intro Hn.
+      change (Ev (KCreate out) true :: b ++ Ev (KClose out) false :: tra)
+        with ([Ev (KCreate out) true] ++ b ++ [Ev (KClose out) false] ++ tra).
+      rewrite !vis_after_app.
+      assert (E1 : fsv v [Ev (KCreate out) true] = v) by reflexivity.
+      assert (E2 : fsv v [Ev (KClose out) false] = v) by reflexivity.
+      rewrite E1, (fs_body v b Hb), E2. eapply fs_abort_writer; eauto.
+    - destruct (abort_writer fo n1 true false out) as [tra n2] eqn:A. intro H; inversion H; subst. intro Hn.
+      change (Ev (KCreate out) true :: b ++ tra) with ([Ev (KCreate out) true] ++ b ++ tra).
+      rewrite !vis_after_app.
+      assert (E1 : fsv v [Ev (KCreate out) true] = v) by reflexivity.
+      rewrite E1, (fs_body v b Hb). eapply fs_abort_writer; eauto.
+  Qed.
+
+  (* successful tombstones of published, pairwise distinct outputs remove exactly them *)
+  Lemma fs_tomb_outputs : forall (tr : list ev) (done : list Z) st,
+    map e_call tr = map KTomb done -> (forall e, In e tr -> e_ok e = true) ->
+    NoDup done -> (forall o, In o done -> ~ In o (ptrs st)) ->
+    fsv (st ++ map outf done) tr = st.
+  Proof.
+    induction tr as [|e tr IH]; intros done st Hc Hok Hn Hf; destruct done as [|o done]; simpl in Hc; try discriminate.
+    - simpl. rewrite app_nil_r. reflexivity.
+    - inversion Hc as [[Hc1 Hc2]]. inversion Hn as [|? ? Hno Hn']; subst.
+      change (e :: tr) with ([e] ++ tr). rewrite vis_after_app.
+      assert (E : fsv (st ++ map outf (o :: done)) [e] = st ++ map outf done).
+      { unfold vis_after. simpl. unfold vis_step. rewrite (Hok e (or_introl eq_refl)). simpl. rewrite Hc1.
+        rewrite remove_ptrs_app. simpl. rewrite outf_ptr. simpl. rewrite Z.eqb_refl. simpl.
+        rewrite remove_ptrs_notin.
+        - f_equal. apply remove_ptrs_notin. intros q [<-|[]]. unfold ptrs. rewrite map_map.
+          intro Hin. apply in_map_iff in Hin as [x [Hx Hin]]. rewrite outf_ptr in Hx. subst. contradiction.
+        - intros q [<-|[]]. apply Hf. simpl. auto. }
+      rewrite E. apply IH; auto.
+      + intros x Hx. apply Hok. simpl. auto.
+      + intros x Hx. apply Hf. simpl. auto.
+  Qed.
+
+  Variable fo : oracle.
+  Variable outp : nat -> Z.
+
+  Lemma ptrs_outs l : ptrs (map outf l) = l.
+  Proof. unfold ptrs. induction l as [|o t IH]; simpl; [reflexivity|]. rewrite outf_ptr, IH. reflexivity. Qed.
+
+  Lemma ptrs_app_outs st done : ptrs (st ++ map outf done) = ptrs st ++ done.
+  Proof.
+    unfold ptrs. rewrite map_app, map_map. f_equal. induction done as [|o t IH]; simpl; [reflexivity|].
+    rewrite outf_ptr, IH. reflexivity.
+  Qed.
+
+  (* the group loop under the filesystem view *)
+  Lemma fs_run_groups : forall groups gi done n tr ok done' n' st,
+    run_groups fo true outp gi groups done n = (tr, ok, done', n') ->
+    NoDup (done ++ outs_from outp gi (length groups)) ->
+    (forall o, In o (done ++ outs_from outp gi (length groups)) -> ~ In o (ptrs st)) ->
+    (ok = true -> fsv (st ++ map outf done) tr = st ++ map outf done') /\
+    (ok = false -> (forall e, In e tr -> is_tomb_ev e = true -> e_ok e = true) ->
+     fsv (st ++ map outf done) tr = st).
+  Proof.
+    induction groups as [|g gs IH]; intros gi done n tr ok done' n' st; simpl.
+    - intro H; inversion H; subst. intros _ _. split; [reflexivity|discriminate].
+    - destruct (exec_group fo n true (outp gi) (g_body g)) as [[tr1 ok1] n1] eqn:E.
+      assert (Eo : outs_from outp gi (S (length gs)) = outp gi :: outs_from outp (S gi) (length gs)) by reflexivity.
+      rewrite Eo. intros H Hn Hf.
+      assert (Hfresh : ~ In (outp gi) (ptrs (st ++ map outf done))).
+      { rewrite ptrs_app_outs. intro Hin. apply in_app_or in Hin as [Hin|Hin].
+        - apply (Hf (outp gi)); [apply in_or_app; right; simpl; auto|exact Hin].
+        - apply NoDup_app_inv in Hn as [_ [_ Hd]]. apply (Hd _ Hin). simpl. auto. }
+      destruct ok1.
+      + destruct (run_groups fo true outp (S gi) gs (done ++ [outp gi]) n1) as [[[tr2 ok2] done2] n2] eqn:R.
+        inversion H; subst. destruct (exec_group_ok _ _ _ _ _ _ _ E) as [b [-> Hb]].
+        assert (Em : (st ++ map outf done) ++ [outf (outp gi)] = st ++ map outf (done ++ [outp gi])).
+        { rewrite map_app, app_assoc. reflexivity. }
+        destruct (IH _ _ _ _ _ _ _ st R) as [I1 I2].
+        * rewrite <- app_assoc. exact Hn.
+        * intros o Ho. apply Hf. rewrite <- app_assoc in Ho. exact Ho.
+        * split; intro Hk; rewrite vis_after_app, (fs_group_ok _ _ _ Hb Hfresh), Em.
+          -- apply I1. exact Hk.
+          -- intro Hok. apply I2; [exact Hk|]. intros e He. apply Hok. apply in_or_app. right. exact He.
+      + destruct (tomb_all fo n1 done) as [[trc oks] n2] eqn:T. inversion H; subst.
+        split; [discriminate|]. intros _ Hok.
+        rewrite vis_after_app, (fs_group_fail _ _ _ _ _ _ _ E Hfresh).
+        destruct (tomb_all_spec _ _ _ _ _ _ T) as [T1 [_ T3]].
+        apply fs_tomb_outputs.
+        * exact T3.
+        * intros e He. apply Hok; [apply in_or_app; right; exact He|].
+          rewrite forallb_forall in T1. apply T1. exact He.
+        * apply NoDup_app_inv in Hn. apply Hn.
+        * intros o Ho. apply Hf. apply in_or_app. auto.
+  Qed.
+
+  Variable groups : list group.
+  Variable st : list file.
+  Hypothesis outs_nodup : NoDup (the_outs outp groups).
+  Hypothesis outs_fresh : forall o, In o (the_outs outp groups) -> ~ In o (ptrs st).
+  Hypothesis outs_not_srcs : forall o, In o (the_outs outp groups) -> ~ In o (the_dels groups).
+
+  (* C13 for the filesystem store, final state only: if no TombstoneFile of an output fails (for an
+     uncommitted run: no TombstoneFile at all fails), then after Merge returns the directory shows
+     either exactly the old content, or the old content minus the sources plus the outputs *)
+  Lemma merge_fs_final :
+    let tr := fst (merge_prog fo true outp groups) in
+    (committedb tr = false -> (forall e, In e tr -> is_tomb_ev e = true -> e_ok e = true) -> fsv st tr = st) /\
+    (committedb tr = true -> fsv st tr = remove_ptrs (the_dels groups) st ++ map outf (the_outs outp groups)).
+  Proof.
+    cbv zeta.
+    pose proof (merge_prog_class fo true outp groups outs_not_srcs) as Hcls.
+    revert Hcls. unfold merge_prog. destruct (fo 0%nat) eqn:F0.
+    { cbn [fst snd]. intros _. split; [intros _ _; reflexivity|]. intro Hc. vm_compute in Hc. discriminate. }
+    destruct (run_groups fo true outp 0 groups [] 1%nat) as [[[tr ok] done] n] eqn:R.
+    destruct (fs_run_groups _ _ _ _ _ _ _ _ st R) as [G1 G2]; [exact outs_nodup|exact outs_fresh|].
+    pose proof (run_groups_spec _ _ _ _ _ _ _ _ _ _ _ R) as S.
+    assert (Eiter : forall t, fsv st (Ev KIter true :: t) = fsv st t) by reflexivity.
+    destruct ok; simpl negb; cbv iota.
+    - destruct S as [-> [S1 _ _ _]]. simpl app in *. fold (the_outs outp groups) in *.
+      specialize (G1 eq_refl). simpl in G1. rewrite app_nil_r in G1.
+      destruct (the_outs outp groups) as [|o outs] eqn:Eo.
+      + cbn [fst snd]. intros _. rewrite Eiter, G1. cbn [map]. rewrite app_nil_r.
+        split; [intros _ _; reflexivity|]. intro Hc. exfalso.
+        rewrite committedb_needs_update in Hc; [discriminate|]. apply split_update_none. simpl. exact S1.
+      + fold (the_dels groups). destruct (fo n) eqn:Fn.
+        * destruct (tomb_all fo (S n) (o :: outs)) as [[trc oks] n2] eqn:T. simpl fst. simpl snd.
+          intros Hcls. destruct (tomb_all_spec _ _ _ _ _ _ T) as [T1 [_ T3]].
+          assert (Hnc : committedb (Ev KIter true :: tr ++ Ev (KUpdate (o :: outs) (the_dels groups)) false :: trc) = false).
+          { apply committedb_needs_update.
+            change (Ev KIter true :: tr ++ Ev (KUpdate (o :: outs) (the_dels groups)) false :: trc)
+              with ((Ev KIter true :: tr) ++ Ev (KUpdate (o :: outs) (the_dels groups)) false :: trc).
+            apply split_update_fail_at; [simpl; exact S1|]. eapply forallb_impl; [apply tomb_not_update|exact T1]. }
+          split; [|rewrite Hnc; discriminate]. intros _ Hok.
+          rewrite Eiter, vis_after_app, G1.
+          change (Ev (KUpdate (o :: outs) (the_dels groups)) false :: trc)
+            with ([Ev (KUpdate (o :: outs) (the_dels groups)) false] ++ trc).
+          rewrite vis_after_app.
+          assert (E2 : fsv (st ++ map outf (o :: outs)) [Ev (KUpdate (o :: outs) (the_dels groups)) false] = st ++ map outf (o :: outs)) by reflexivity.
+          rewrite E2. apply fs_tomb_outputs; [exact T3| |exact outs_nodup|exact outs_fresh].
+          intros e He. apply Hok.
+          -- right. apply in_or_app. right. right. exact He.
+          -- rewrite forallb_forall in T1. apply T1. exact He.
+        * destruct (tomb_all fo (S n) (the_dels groups)) as [[trt oks] n2] eqn:T. simpl fst. simpl snd.
+          intros Hcls. destruct (tomb_all_spec _ _ _ _ _ _ T) as [T1 [_ T3]].
+          assert (Hfin : fsv st (Ev KIter true :: tr ++ Ev (KUpdate (o :: outs) (the_dels groups)) true :: trt)
+                         = remove_ptrs (the_dels groups) st ++ map outf (o :: outs)).
+          { rewrite Eiter, vis_after_app, G1.
+            change (Ev (KUpdate (o :: outs) (the_dels groups)) true :: trt)
+              with ([Ev (KUpdate (o :: outs) (the_dels groups)) true] ++ trt).
+            rewrite vis_after_app.
+            assert (E2 : fsv (st ++ map outf (o :: outs)) [Ev (KUpdate (o :: outs) (the_dels groups)) true]
+                         = remove_ptrs (the_dels groups) st ++ map outf (o :: outs)).
+            { unfold vis_after. cbn [fold_left]. unfold vis_step. cbn [e_ok e_call negb]. rewrite remove_ptrs_app. f_equal.
+              apply remove_ptrs_notin. intros d Hd Hin. rewrite ptrs_outs in Hin.
+              assert (Hino : In d (the_outs outp groups)) by (rewrite Eo; exact Hin).
+              first [apply (outs_not_srcs d Hin Hd) | apply (outs_not_srcs d Hino Hd)]. }
+            rewrite E2.
+            (* source tombstones after the Update: the sources are gone already *)
+            assert (G : forall (t : list ev) (ds : list Z) v, map e_call t = map KTomb ds ->
+                          (forall d, In d ds -> ~ In d (ptrs v)) -> fsv v t = v).
+            { clear. induction t as [|e t IH]; intros ds v Hc Hd; [reflexivity|].
+              destruct ds as [|d ds]; simpl in Hc; [discriminate|]. inversion Hc as [[Hc1 Hc2]].
+              change (e :: t) with ([e] ++ t). rewrite vis_after_app.
+              assert (E : fsv v [e] = v).
+              { destruct e as [k ok]. simpl in Hc1. subst k. apply fs_tomb_noop. right. apply Hd. simpl. auto. }
+              rewrite E. apply (IH ds); [exact Hc2|]. intros x Hx. apply Hd. simpl. auto. }
+            apply (G trt (the_dels groups)); [exact T3|].
+            intros d Hd Hin. rewrite ptrs_app_outs in Hin. apply in_app_or in Hin as [Hin|Hin].
+            - unfold ptrs, remove_ptrs in Hin. apply in_map_iff in Hin as [f [Hf Hin]]. apply filter_In in Hin as [_ Hin].
+              apply negb_true_iff in Hin. apply mem_z_false in Hin. subst d. contradiction.
+            - assert (Hino : In d (the_outs outp groups)) by (rewrite Eo; exact Hin).
+              first [apply (outs_not_srcs d Hin Hd) | apply (outs_not_srcs d Hino Hd)]. }
+          split; [|intros _; exact Hfin].
+          intro Hc. exfalso.
+          destruct (forallb (fun b => b) oks); destruct Hcls as [A B C|A B C D|A B C D F|A B C D F]; try congruence;
+            (destruct tr; simpl in A; discriminate).
+    - destruct S as [S1 _]. cbn [fst snd]. intros _.
+      split; [|intro Hc; exfalso; rewrite committedb_needs_update in Hc; [discriminate|apply split_update_none; simpl; exact S1]].
+      intros _ Hok. rewrite Eiter. specialize (G2 eq_refl). simpl in G2. rewrite app_nil_r in G2. apply G2.
+      intros e He. apply Hok. right. exact He.
+  Qed.
+End FsFinal.
